@@ -280,6 +280,12 @@ def resolve (sc : SameChange) (cm : ContentMerge) (ts : List Tree) : List Tree :
   | [t] => [t]
   | merged => simplify merged
 
+/-- The `debug_assert_eq!(re_merged, simplified)` of `MergedTree::resolve`: merging the simplified
+result once more changes nothing.  (It does **not** hold in general: `Props/C07.lean`,
+`resolve_debug_assert_can_fire`.) -/
+def resolveDebugAssert (sc : SameChange) (cm : ContentMerge) (ts : List Tree) : Bool :=
+  mergeTrees sc cm (resolve sc cm ts) == resolve sc cm ts
+
 /-- `MergedTree::merge` -/
 def mergedTreeMerge (sc : SameChange) (cm : ContentMerge) (inputs : List (List Tree)) : List Tree :=
   resolve sc cm (mergeNoResolve inputs)
